@@ -30,7 +30,7 @@ META = {
                     "the sign of a zero float is not compared"],
 }
 
-IMPORTS = "From V Require Import C16.Model."
+IMPORTS = "From Coq Require Import Uint63.\nFrom V Require Import C16.Model."
 
 # ------------------------------------------------------------------ helpers
 def bits_of(x):
@@ -68,6 +68,43 @@ def coq_obs(o):
         b = o[1]
         return '(ofl %s "%x")' % ("true" if b >> 63 else "false", b & ((1 << 63) - 1))
     return {"syn": "OSyn", "nonnum": "ONonNum"}.get(k, "OOther")
+
+
+def pack_spelling(s):
+    cps = [ord(c) for c in s]
+    out = [len(cps)]
+    for i in range(0, len(cps), 3):
+        g = cps[i:i + 3] + [0, 0]
+        out.append(g[0] | (g[1] << 21) | (g[2] << 42))
+    return out
+
+
+def pack_obs(o, prev=None):
+    if prev is not None and o == prev:
+        return [5]
+    k = o[0]
+    if k == "syn": return [0]
+    if k == "nonnum": return [1]
+    if k == "int":
+        z = abs(o[1]); ls = []
+        while z:
+            ls.append(z & ((1 << 60) - 1)); z >>= 60
+        return [3, 1 if o[1] < 0 else 0, len(ls)] + ls
+    if k == "flt":
+        return [4, o[1] >> 63, o[1] & ((1 << 63) - 1)]
+    return [2]
+
+
+def packed(fn, ints):
+    return "%s [%s]%%uint63" % (fn, ";".join(str(x) for x in ints))
+
+
+def pack_case(s, o):
+    ints = pack_spelling(s)
+    prev = None
+    for x in o:
+        ints += pack_obs(x, prev); prev = x
+    return packed("chkp", ints)
 
 
 def obs_of(t):
@@ -460,7 +497,7 @@ def run(ctx):
                 o = (("other", why),) * 4
             obs.append(o)
 
-    exprs = ["chk %s %s" % (coq_codes(s), " ".join(coq_obs(x) for x in o)) for (_, s), o in zip(cases, obs)]
+    exprs = [pack_case(s, o) for (_, s), o in zip(cases, obs)]
     bad, errs = core.coq_eval_bools(ctx.prop, IMPORTS, exprs, chunk=500, tag="spellcases")
     notes.append("spellings coq %.1fs" % (time.time() - t0)); t0 = time.time()
     for k, t in errs:
@@ -468,14 +505,22 @@ def run(ctx):
 
     # diagnose the failing cases: which conjunct, what the model says
     if bad:
-        bad = bad[:400]
+        dist["failing_spellings"] = len(bad)
+        # diagnose a bounded, tag-diverse subset
+        by_tag, pick = {}, []
+        for i in bad:
+            t = cases[i][0].split("+")[0]
+            by_tag.setdefault(t, []).append(i)
+        while len(pick) < 60 and any(by_tag.values()):
+            for t in sorted(by_tag):
+                if by_tag[t] and len(pick) < 60:
+                    pick.append(by_tag[t].pop(0))
+        bad = sorted(pick)
         d_exprs = []
         for i in bad:
             (_, s), o = cases[i], obs[i]
-            cs = coq_codes(s)
-            d_exprs += ["nc_ok (number_chars_model %s) %s" % (cs, coq_obs(o[0])), "nc_ok (number_chars_model %s) %s" % (cs, coq_obs(o[1])),
-                        "rd_ok (read_model (%s ++ cs "" ."")) %s" % (cs, coq_obs(o[2])), "rd_ok (read_model (%s ++ cs ""."")) %s" % (cs, coq_obs(o[3])),
-                        "agree %s" % cs]
+            pc = pack_case(s, o)[len("chkp "):]
+            d_exprs += ["diagp %d%%uint63 %s" % (c, pc) for c in range(5)]
         dbad, derrs = core.coq_eval_bools(ctx.prop, IMPORTS, d_exprs, chunk=500, tag="diag")
         dbad = set(dbad)
         names = ["number_codes", "number_chars", "read_from_chars(S+' .')", "read_term_from_chars(S+'.')"]
@@ -531,6 +576,7 @@ def run(ctx):
     notes.append("roundtrip impl %.1fs" % (time.time() - t0)); t0 = time.time()
     rt_eval = 0
     text_checks = []     # Coq expressions
+    n_int_texts = [0]
     nodot = 0
     rt_fail = {}
 
@@ -575,21 +621,21 @@ def run(ctx):
                 if is_float:
                     for txt in (a1, a2):
                         if re.match(r"^-?\d+\.\d", txt):
-                            text_checks.append("float_text_ok %s %s %s" % (coq_codes(txt), "true" if v >> 63 else "false", coq_bits(v)))
+                            text_checks.append(packed("textp", pack_spelling(txt) + pack_obs(("flt", v))))
                         else:
                             nodot += 1
                 else:
-                    text_checks.append("int_text_ok %s %s" % (coq_codes(a1), coq_int(v)))
-                    text_checks.append("int_text_ok %s %s" % (coq_codes(a2), coq_int(v)))
+                    text_checks.append(packed("textp", pack_spelling(a1) + pack_obs(("int", v))))
+                    text_checks.append(packed("textp", pack_spelling(a2) + pack_obs(("int", v))))
+                    n_int_texts[0] += 2
     one(dbls, "f", True)
     one(ints, "i", False)
     dist["roundtrip"] = {"doubles": len(dbls), "integers": len(ints), "float_texts_without_dot": nodot, "failures_by_key": rt_fail}
 
     # the model reads the printed texts back: a sample of the float texts, all integer texts
-    n_txt = ctx.scale(3000, 60000)
-    ft = [e for e in text_checks if e.startswith("float")]
-    it = [e for e in text_checks if e.startswith("int")]
-    ft = sorted(set(ft))
+    n_txt = ctx.scale(2000, 60000)
+    it = text_checks[len(text_checks) - n_int_texts[0]:]      # integers are processed last
+    ft = sorted(set(text_checks[:len(text_checks) - n_int_texts[0]]))
     rng.shuffle(ft)
     sample = ft[:n_txt] + sorted(set(it))
     tbad, terrs = core.coq_eval_bools(ctx.prop, IMPORTS, sample, chunk=500, tag="textcases")
